@@ -14,7 +14,7 @@ import (
 func init() {
 	Register(&PropDef{
 		ID: "C01", QuickRuns: 4800, Level: "exploration",
-		Rule:   "one run = an association/session history of 1-2 peers into which 3-25 hostile datagrams are injected (random bytes; truncations; every message type the dispatcher handles and unsupported ones with 1-3 IE-level mutations: drop / duplicate / empty / retype / truncate / garble / IPv6-only address forms / corrupted flow descriptions; in states: first datagram on the listening socket, before/after association, with sessions, unknown SEID, after release). In one run in four the agent itself opens the association towards the victim (cpiface.peers) and every transmission of its Association Setup Request is answered with a valid, rejected, truncated or IE-mutated response carrying the right sequence number. With heartbeats enabled (intervals 15 ms / 40 ms / 5 s) the victim may sit on the agent's Heartbeat Requests and answer them late, and repeats its Association Setup on the live association, so that responses meet requests the agent has meanwhile abandoned; its PFCP port may be closed for a moment while the agent answers it (ICMP port unreachable, ECONNREFUSED on the agent's next read). One run in 48 is a long valid history instead: one failed write to the end-marker socket followed by more than a thousand hand-overs with end markers over two associations, every one of which must be answered. Monitors: any panic or Fatal of an agent task (attributed to the innermost repo frame); a valid Heartbeat Request sent afterwards on the same and on another association must be answered; at most one response-type datagram per injected datagram. Non-trivial = at least one accepted session operation or association plus at least one hostile datagram; distinct = different sequence of (state, message type, mutation kinds).",
+		Rule:   "one run = an association/session history of 1-2 peers into which 3-25 hostile datagrams are injected (random bytes; truncations; every message type the dispatcher handles and unsupported ones with 1-3 IE-level mutations: drop / duplicate / empty / retype / truncate / garble / IPv6-only address forms / corrupted flow descriptions / textual values respelt in letter case and padding; in states: first datagram on the listening socket, before/after association, with sessions, unknown SEID, after release). In one run in four the agent itself opens the association towards the victim (cpiface.peers) and every transmission of its Association Setup Request is answered with a valid, rejected, truncated or IE-mutated response carrying the right sequence number. With heartbeats enabled (intervals 15 ms / 40 ms / 5 s) the victim may sit on the agent's Heartbeat Requests and answer them late, and repeats its Association Setup on the live association, so that responses meet requests the agent has meanwhile abandoned; its PFCP port may be closed for a moment while the agent answers it (ICMP port unreachable, ECONNREFUSED on the agent's next read). One run in 48 is a long valid history instead: one failed write to the end-marker socket followed by more than a thousand hand-overs with end markers over two associations, every one of which must be answered. Monitors: any panic or Fatal of an agent task (attributed to the innermost repo frame); a valid Heartbeat Request sent afterwards on the same and on another association must be answered; at most one response-type datagram per injected datagram. Non-trivial = at least one accepted session operation or association plus at least one hostile datagram; distinct = different sequence of (state, message type, mutation kinds).",
 		Assume: []string{"hostile generators are built on an independent TLV codec; 'answered' means within 5 virtual seconds after the agent is quiescent"},
 		Real:   CommonReal, Simulated: CommonSim,
 		Scenario: scenarioC01,
@@ -81,7 +81,7 @@ func (h *hostile) mutateTree(m *PFCPMsg) {
 	ref := refs[h.c(len(refs), "node")]
 	list := ref.list
 	t := (*list)[ref.idx]
-	kind := h.c(9, "mutkind")
+	kind := h.c(10, "mutkind")
 	switch kind {
 	case 0: // drop
 		*list = append((*list)[:ref.idx], (*list)[ref.idx+1:]...)
@@ -114,6 +114,20 @@ func (h *hostile) mutateTree(m *PFCPMsg) {
 		h.desc = append(h.desc, "v6only"+ref.path)
 	case 7: // flow description corruption
 		h.flowMut(m)
+	case 9: // another spelling of a textual value: letter case flipped, padding added
+		if !t.Group && len(t.Val) > 0 {
+			flipped := false
+			for i, b := range t.Val {
+				if (b >= 'a' && b <= 'z') || (b >= 'A' && b <= 'Z') {
+					t.Val[i] = b ^ 0x20
+					flipped = true
+				}
+			}
+			if !flipped || h.c(3, "pad") == 1 {
+				t.Val = append(append([]byte{}, t.Val...), ' ')
+			}
+		}
+		h.desc = append(h.desc, "respell"+ref.path)
 	case 8: // flags/first byte extremes
 		if !t.Group && len(t.Val) > 0 {
 			t.Val[0] = []byte{0x00, 0xff, 0x80, 0x01, 0x02, 0x04, 0x10}[h.c(7, "fl")]
@@ -228,7 +242,8 @@ func (h *hostile) baseMessage(p *Peer) (string, []byte) {
 	case 14:
 		// session establishment whose PDR names an application id (PFD path)
 		s := g.Session(p, SessShape{})
-		s.PDRs[1].AppID = []string{"app1", "app2", "nosuchapp"}[h.c(3, "appid")]
+		// (also spellings that differ from the provisioned ones in letter case or padding)
+		s.PDRs[1].AppID = []string{"app1", "app2", "nosuchapp", "APP1", "App2", " app1", "app2 "}[h.c(7, "appid")]
 		return "SessionEstablishmentRequest+AppID", Marshal(p.EstablishMsg(s))
 	case 15:
 		// establishment without any PDR (FARs/QERs only)
